@@ -732,6 +732,23 @@ _dispatch_io_stop(dispatch_io_t channel)
 	(void)os_atomic_or2o(channel, atomic_flags, DIO_STOPPED, relaxed);
 	_dispatch_retain(channel);
 	dispatch_async(channel->queue, ^{
+		if (channel->fd != -1) {
+			// Interrupt the channel's operations right away: the barrier queue
+			// used below may be suspended by a pending dispatch_io_barrier()
+			// that is waiting for these very operations
+			_dispatch_retain(channel);
+			dispatch_async(_dispatch_io_fds_lockq, ^{
+				dispatch_fd_entry_t fdi;
+				uintptr_t hash = DIO_HASH(channel->fd);
+				LIST_FOREACH(fdi, &_dispatch_io_fds[hash], fd_list) {
+					if (fdi->fd == channel->fd) {
+						_dispatch_fd_entry_cleanup_operations(fdi, channel);
+						break;
+					}
+				}
+				_dispatch_release(channel);
+			});
+		}
 		dispatch_async(channel->barrier_queue, ^{
 			_dispatch_object_debug(channel, "%s", __func__);
 			dispatch_fd_entry_t fd_entry = channel->fd_entry;
